@@ -838,7 +838,56 @@ func (i *interpreter) noCode(fr *frame, fn *ssa.Function, args []value) value {
 		}
 		return zero(fn.Signature.Results())
 	}
+	if v, ok := i.generatedGetter(fn, args); ok {
+		return v
+	}
 	panic(engineError{"no code and no intrinsic for function: " + fn.String()})
+}
+
+// generatedGetter executes a body-less accessor of a dependency whose source has the generated
+// nil-safe getter shape (checked against the source on every run).
+func (i *interpreter) generatedGetter(fn *ssa.Function, args []value) (value, bool) {
+	recv := fn.Signature.Recv()
+	if recv == nil || len(args) != 1 || fn.Signature.Results().Len() != 1 || i.sess == nil {
+		return nil, false
+	}
+	pt, ok := recv.Type().(*types.Pointer)
+	if !ok {
+		return nil, false
+	}
+	named, ok := pt.Elem().(*types.Named)
+	if !ok || named.Obj().Pkg() == nil {
+		return nil, false
+	}
+	st, ok := named.Underlying().(*types.Struct)
+	if !ok {
+		return nil, false
+	}
+	field, ok := i.sess.simpleGetter(named.Obj().Pkg().Path(), named.Obj().Name(), fn.Name())
+	if !ok {
+		return nil, false
+	}
+	idx := -1
+	for k := 0; k < st.NumFields(); k++ {
+		if st.Field(k).Name() == field {
+			idx = k
+		}
+	}
+	if idx < 0 || !types.Identical(st.Field(idx).Type(), fn.Signature.Results().At(0).Type()) {
+		return nil, false
+	}
+	p, _ := args[0].(*value)
+	if p == nil {
+		return zero(fn.Signature.Results().At(0).Type()), true
+	}
+	sv, ok := (*p).(structure)
+	if !ok || idx >= len(sv) {
+		return nil, false
+	}
+	if i.px != nil {
+		i.px.intr["(generated getter) "+fn.String()]++
+	}
+	return sv[idx], true
 }
 
 // noopPkgs: observability packages whose body-less functions are treated as no-ops.
